@@ -23,7 +23,7 @@ from props import common
 
 ID = "C18"
 LEVEL = "exploration"
-QUICK_RUNS = 10000
+QUICK_RUNS = 7000
 QUICK_BUDGET_S = 50.0
 THOROUGH_RUNS = 10 ** 9
 BATCH = 100
@@ -47,6 +47,7 @@ COMPONENTS = {
 }
 PROBES = ["both_in_read_decimal", "both_in_parse", "both_in_writer_dump", "both_in_validate",
           "family_decimal", "family_logical", "family_general", "family_parse", "family_json", "family_resolve",
+          "family_expand", "family_deep",
           "three_tasks", "strategy_pct", "strategy_uniform", "strategy_sticky", "fresh_process_schedule"]
 
 
@@ -109,7 +110,7 @@ def _logical_datum(ch):
 
 def build(ch, F):
     """Returns (family, base_env, task op lists)."""
-    fam = ch.weighted([4, 2, 4, 2, 2, 3])
+    fam = ch.weighted([8, 4, 8, 4, 4, 6, 4, 1])   # the deep family costs ~1 s per run: about 2.5 % of runs
     E = {}
     tasks = []
     ntasks = 3 if ch.chance(20) else 2
@@ -153,6 +154,52 @@ def build(ch, F):
                 return False
         return True
 
+    if fam == 6:
+        # expand_schema / re-parse of an ALREADY PARSED shared schema in one task, ordinary use of the
+        # same object (write, validate, read with it as reader schema, JSON) in the others
+        S = {"type": "record", "name": "Outer", "fields": [
+            {"name": "a", "type": {"type": "record", "name": "Inner", "fields": [{"name": "x", "type": "int"}, {"name": "s", "type": "string"}]}},
+            {"name": "b", "type": "Inner"}, {"name": "c", "type": {"type": "array", "items": "Inner"}},
+            {"name": "e", "type": {"type": "enum", "name": "En", "symbols": ["P", "Q"]}}, {"name": "e2", "type": ["null", "En"]}]}
+        E["P"] = F.parse_schema(S)
+        mk = lambda: {"a": {"x": ch.draw(100), "s": ch.pick(["p", "qq"])}, "b": {"x": 1, "s": ""},
+                      "c": [{"x": i, "s": "i"} for i in range(ch.draw(3))], "e": ch.pick(["P", "Q"]), "e2": ch.pick([None, "Q"])}
+        first = []
+        for j in range(1 + ch.draw(3)):
+            k = ch.draw(3)
+            first.append({"op": "expand", "schema": "P"} if k < 2 else {"op": "parse", "schema": "P"})
+        tasks.append(first)
+        for t in range(1, ntasks):
+            E[f"D{t}"] = mk()
+            E[f"R{t}"] = [mk() for _ in range(1 + ch.draw(2))]
+            if not materialise("P", f"D{t}", f"R{t}", True):
+                return None
+            lst = io_ops("P", f"D{t}", f"R{t}", t, allow_json=True)
+            if ch.chance(40):
+                lst.append({"op": "sread", "schema": "P", "bytes": f"B_D{t}", "reader": "P"})
+            tasks.append(lst)
+        return "expand", E, tasks
+    if fam == 7:
+        # deep recursive data: every task decodes a linked list of depth 45..80 (three tasks of 45
+        # or two of 80 hold more than 100 frames of read_data between them)
+        S = {"type": "record", "name": "Node", "fields": [{"name": "v", "type": "int"}, {"name": "next", "type": ["null", "Node"]}]}
+        E["P"] = F.parse_schema(S)
+        for t in range(ntasks):
+            depth = ch.pick([45, 45, 60, 80])
+            d = None
+            for i in range(depth):
+                d = {"v": i, "next": d}
+            E[f"D{t}"] = d
+            E[f"R{t}"] = [d, {"v": -1, "next": None}]
+            if not materialise("P", f"D{t}", f"R{t}", False):
+                return None
+            lst = []
+            for j in range(1):
+                k = ch.draw(4)
+                lst.append([{"op": "sread", "schema": "P", "bytes": f"B_D{t}"}, {"op": "cread", "bytes": f"C_R{t}"},
+                            {"op": "bread", "bytes": f"C_R{t}"}, {"op": "cread", "bytes": f"C_R{t}", "reader": "P"}][k])
+            tasks.append(lst)
+        return "deep", E, tasks
     if fam == 5:
         # schema resolution against one SHARED parsed reader schema
         wfields = [("a", "int"), ("b", "string"), ("c", "float"), ("d", "long"), ("g", ["null", "string"])]
@@ -341,6 +388,8 @@ def run_one(ch, ctx):
         solo.append(r[1])
         steps += sc.step
     nsched = 2 if ctx.tier == "quick" else 6
+    if fam == "deep":
+        nsched = 1 if ctx.tier == "quick" else 3
     for si in range(nsched):
         sseed, strategy, in_fresh = draw_schedule(ch, steps)
         ctx.probe("strategy_" + strategy[0])
